@@ -397,7 +397,7 @@ impl Case {
             lim: Opd::from_json(&v["lim"])?,
         })
     }
-    fn describe(&self) -> String {
+    pub fn describe(&self) -> String {
         let upd = match self.op {
             Op::AddAssign => "x += step",
             Op::SubAssign => "x -= step",
@@ -439,7 +439,7 @@ pub struct Outcome {
 }
 
 /// Execute the loop of the real code (same machine code in enumeration and replay).
-fn run_real(c: &Case) -> Result<([u8; K], u32, [u8; 10]), String> {
+pub fn run_real(c: &Case) -> Result<([u8; K], u32, [u8; 10]), String> {
     let f = TABLE[c.rel.idx()][op_idx(c.op)][c.form.idx()];
     let (a, step, lim) = (c.a.real(), c.step.real(), c.lim.real());
     catch(move || {
